@@ -1,5 +1,5 @@
 """C09 - random stability: results depend only on seed, model and call history."""
-from .. import engine, fam_stab
+from .. import engine, fam_stab, fam_mc
 
 LEVEL = "model_checking"
 MODULE = "Trace_Stab"
@@ -9,6 +9,10 @@ RUNNER = ("runner_stab", "run_scenario")
 def run(tier, seed, limit=0):
     chk = engine.Check("C09", tier, seed)
     scs = fam_stab.family_stab(tier, seed)
+    mc_scs, sim_states = fam_mc.family_mc_stab(tier, seed)          # TLC-generated behaviours of B_RandState, replayed
+    scs = scs + mc_scs
+    chk.extra_cov["tlc_generated_histories_replayed"] = len(mc_scs)
+    chk.extra_cov["tlc_simulation_states"] = sim_states
     if limit:
         scs = scs[:limit]
     chk.run_scenarios(scs, MODULE, fn=RUNNER, batch_events=400)
